@@ -21,6 +21,7 @@ KindOK(e) ==
     [] e.g \in {"get_birth_year", "get_birth_month"} -> e.r.t = "int" \/ (e.r.t = "NoneType" /\ e.m \in NoneDocumented)
     [] e.g = "split" -> e.r.t \in {"tuple", "list"}
     [] e.g = "info" -> e.r.t \in {"dict", "list", "tuple"}
+    [] e.g \in {"tin_type", "guess_type"} -> e.r.t \in {"str", "list"}      \* the sub-type(s) of a VALID number: never None
     [] OTHER -> TRUE
 T1(e) == (Ret(e.r) /\ KindOK(e)) \/ IsVE(e.r)
 (* T2: a returned birth date is a real date and agrees with the digits of the number *)
